@@ -26,7 +26,7 @@ func init() {
 			"(b) non-expressions and arbitrary strings: byte deletion/duplication/transposition, bracket unbalancing, illegal characters, truncation at every prefix of valid strings, random strings over the XPath alphabet; every string is classified by the reference recogniser (§3.7 disambiguation rules): invalid => BuildExpr must return an error (not panic, not a query); valid => treated as (a) (values compared when both sides evaluate). " +
 			"A disagreement is attributed to an open grammar finding only if rewriting exactly that feature away makes library and reference agree. distinct_nontrivial = distinct (class, rendering, outcome) x token-shape signatures",
 		Assumptions: []string{"XML NameChar tables are approximated; generated names stay within ASCII letters, digits, '-', '.', '_', '#' and a few BMP letters", "for mutated strings that happen to be valid but ill-typed only acceptance is judged when exactly one side fails at evaluation"},
-		NCases:      func(tier string) int { return map[string]int{"quick": 900, "thorough": 30000}[tier] },
+		NCases:      func(tier string) int { return map[string]int{"quick": 2500, "thorough": 70000}[tier] },
 		Case:        c08Case,
 	})
 }
@@ -249,7 +249,7 @@ var (
 	reNumWS     = regexp.MustCompile(`(\d)[ \t\r\n]*\.[ \t\r\n]*(\d)`)
 	reNumWS2    = regexp.MustCompile(`(^|[^\w.)\]])\.[ \t\r\n]+(\d)`)
 	reAxisMangled = regexp.MustCompile(`\b(?:preceding|following)[._0-9]sibling\b|\b(?:ancestor|descendant)(?:[._0-9]or[._0-9-]self|-or[._0-9]self)\b`)
-	reSlashStar = regexp.MustCompile(`(^|[(\[,=<>+|-]|\b(?:and|or|div|mod)\b)[ \t\r\n]*/[ \t\r\n]*\*`)
+	reSlashStar = regexp.MustCompile(`(^|[(\[,=<>+|-]|and|or|div|mod)[ \t\r\n]*/[ \t\r\n]*\*`)
 )
 
 // c08Rewrites are string-level rewrites for strings the reference rejects but the library accepts.
